@@ -35,6 +35,11 @@ OPS = [
     (r"\.any\(", ".all("), (r"\.all\(", ".any("), (r"\.min\(", ".max("), (r"\.max\(", ".min("),
     (r"\bmem::take\(&mut (\w+)\)", r"\1.clone()"), (r"\.sort_unstable\(\)", ".reverse()"), (r"\.sort\(\)", ".reverse()"),
     (r"\.unwrap_or\(true\)", ".unwrap_or(false)"), (r"\.unwrap_or\(false\)", ".unwrap_or(true)"),
+    # second sweep: conditions forced, unary not removed, + / - swapped, small integer literals bumped
+    (r"^(\s*)(\} else )?if (?!let )(.+) \{$", r"\1\2if true {"), (r"^(\s*)(\} else )?if (?!let )(.+) \{$", r"\1\2if false {"),
+    (r"(?<![\w\)\]])!(?=[a-z_\(])", ""), (r"(?<= )\+(?= )", "-"), (r"(?<= )-(?= )", "+"),
+    (r"(?<![\w\.\"'])([2-9])(?![\w\.\"'])", lambda m: str(int(m.group(1)) + 1)),
+    (r"\bSome\((\w+)\) =>", r"Some(\1) if false =>"),
     # statement deletion: a whole line that is a call / assignment statement
     (r"^(\s+)((?:self\.|[a-z_]+\.)[\w\.]+\(.*\);)$", r"\1// \2"),
     (r"^(\s+)((?:self\.)?[a-z_\.]+ = .*;)$", r"\1// \2"),
@@ -70,7 +75,7 @@ def sites(text):
         code = ln.split("//")[0]
         for k, (pat, rep) in enumerate(OPS):
             for m in re.finditer(pat, code, flags=re.M):
-                new = code[:m.start()] + m.expand(rep) + code[m.end():] + ln[len(code):]
+                new = code[:m.start()] + (rep(m) if callable(rep) else m.expand(rep)) + code[m.end():] + ln[len(code):]
                 if new != ln:
                     out.append((i, k, new))
     return out
@@ -102,13 +107,14 @@ def main():
     mine = cands[wid::nw][:limit]
     res_path = os.path.join(work, f"results_w{wid}.jsonl")
     done = set()
-    if os.path.exists(res_path):
-        for l in open(res_path):
+    import glob
+    for rp in glob.glob(os.path.join(work, "results_w*.jsonl")):
+        for l in open(rp):
             d = json.loads(l)
-            done.add((d["file"], d["line"], d["op"], d["new"]))
+            done.add((d["file"], d["line"], d["new"]))
     print(f"worker {wid}: {len(cands)} candidate mutants overall, {len(mine)} for this worker", flush=True)
     for (f, i, k, new) in mine:
-        if (f, i + 1, k, new.strip()) in done:
+        if (f, i + 1, new.strip()) in done:
             continue
         path = os.path.join(repo, f)
         sh(["git", "-C", repo, "checkout", "--", "."])
